@@ -5,7 +5,8 @@
      K idle=<logged> in=<the MODEL's table handed to the kernel> out=<logged> n=<logged>
      Q idle=.. out=.. n=..      <- the MODEL's own kernel function (checked against the log)
    followed by the callbacks/actions the model's dispatch produced.  Without a log the model runs
-   on its own kernel function. *)
+   on its own kernel function.   Script additions: cfg ... timer=1 (a timer of interval 0: a tick after every pass), tphase / tdo <action>
+   (timer phases), action reset Y (the peer resets the connection). *)
 let nat = nat_of_int
 let int = int_of_nat
 
@@ -22,11 +23,12 @@ let parse_action (ws : string list) : action option =
     | "pclose" :: y :: _ -> let y = int_of_string y in if idok y then Some (APclose (nat y)) else None
     | "add" :: y :: _ -> let y = int_of_string y in if idok y then Some (AAdd (nat y)) else None
     | "shut" :: y :: _ -> let y = int_of_string y in if idok y then Some (AShut (nat y)) else None
+    | "reset" :: y :: _ -> let y = int_of_string y in if idok y then Some (AReset (nat y)) else None
     | _ -> None
   with _ -> None
 
 let act_target = function
-  | AWrite (y, _) | AHclose y | APclose y | AAdd y | AShut y -> Some (int y)
+  | AWrite (y, _) | AHclose y | APclose y | AAdd y | AShut y | AReset y -> Some (int y)
   | AWake | AExit -> None
 
 let str_action = function
@@ -35,6 +37,7 @@ let str_action = function
   | APclose y -> Printf.sprintf "pclose %d" (int y)
   | AAdd y -> Printf.sprintf "add %d" (int y)
   | AShut y -> Printf.sprintf "shut %d" (int y)
+  | AReset y -> Printf.sprintf "reset %d" (int y)
   | AWake -> "wake"
   | AExit -> "exit"
 
@@ -44,6 +47,7 @@ let str_ev = function
   | EWake -> "w"
   | EClear x -> Printf.sprintf "x %d" (int x)
   | EExit -> "e"
+  | ETimer -> "t"
   | EAct (a, r) -> Printf.sprintf "a %s %s" (str_action a) (match int r with 0 -> "ok" | 1 -> "skip" | _ -> "rej")
 
 let field (line : string) (key : string) : string =
@@ -67,8 +71,11 @@ let str_ids l = String.concat "," (List.map string_of_int l)
 let str_rep l = String.concat "," (List.map (fun (x, e) -> Printf.sprintf "%d:%d" (int x) (int e)) l)
 
 let handle (lines : string list) : unit =
+  (* edge scenarios (NULL-callback matrix, refused registrations) are monitor-only: no model run *)
+  if (match lines with l :: _ -> String.length l >= 4 && String.sub l 0 4 = "edge" | [] -> false) then print_endline "EDGE" else
   let hints = ref 8 in
   let kinds = ref [] and phases = ref [ [] ] (* reversed list of reversed phases *) and trigs = ref [] in
+  let timer = ref false and tphases = ref [] (* reversed list of reversed timer phases *) in
   let logs : (string * string list ref) list ref = ref [] in
   let inlog = ref false in
   List.iter (fun l ->
@@ -80,7 +87,13 @@ let handle (lines : string list) : unit =
       end else
         match words l with
         | "LOG" :: _ -> inlog := true
-        | "cfg" :: _ -> (let h = field l "hints" in if h <> "" then (try hints := int_of_string h with _ -> ()))
+        | "cfg" :: _ -> (let h = field l "hints" in if h <> "" then (try hints := int_of_string h with _ -> ()));
+                        if field l "timer" = "1" then timer := true
+        | "tphase" :: _ -> tphases := [] :: !tphases
+        | "tdo" :: rest ->
+          (match parse_action rest with
+           | Some a -> (match !tphases with p :: r -> tphases := (a :: p) :: r | [] -> tphases := [ [a] ])
+           | None -> ())
         | "ctx" :: id :: k :: _ ->
           (try let id = int_of_string id in
              if id >= 1 && id < 40 then
@@ -102,12 +115,14 @@ let handle (lines : string list) : unit =
   let declared y = List.mem_assoc y !kinds in
   let valid a = match act_target a with None -> true | Some y -> declared y in
   let phs = List.rev_map (fun p -> List.filter valid (List.rev p)) !phases in
+  let tphs = List.rev_map (fun p -> List.filter valid (List.rev p)) !tphases in
   let tg = List.stable_sort (fun (_, b1, _) (_, b2, _) -> compare b1 b2) (List.rev !trigs) in
   let tg = List.filter (fun (_, _, a) -> valid a) tg in
   let sc = { s_hints = nat (if !hints < 0 then 0 else !hints);
              s_kinds = List.map (fun (i, k) -> (nat i, k)) !kinds;
              s_phases = phs;
-             s_trigs = List.map (fun (c, b, a) -> { tctx = nat c; tbytes = nat b; tact = a }) tg } in
+             s_trigs = List.map (fun (c, b, a) -> { tctx = nat c; tbytes = nat b; tact = a }) tg;
+             s_timer = !timer; s_tphases = tphs } in
   let ids = List.sort compare (List.map fst !kinds) in
   let logs = List.rev !logs in
   List.iter (fun (bname, b) ->
